@@ -277,6 +277,7 @@ func (l *Lexer) readString(delimiter byte) string {
 		}
 		// Handle escape sequences
 		if l.CurrentChar == '\\' {
+			escStart := l.position
 			l.ReadChar() // Move to the character after backslash
 			if l.atEOF() {
 				// unterminated string ending in a backslash
@@ -293,7 +294,7 @@ func (l *Lexer) readString(delimiter byte) string {
 						l.ReadChar() // consume second hex digit
 						// Convert hex digits to byte value
 						value := hexDigitValue(hex1)*16 + hexDigitValue(hex2)
-						result.WriteByte(byte(value))
+						writeEscaped(&result, value, l.input[escStart:l.position+1])
 						continue
 					}
 				}
@@ -360,10 +361,7 @@ func (l *Lexer) readString(delimiter byte) string {
 					}
 
 					// Convert to UTF-8 and add to result
-					utf8Bytes := encodeUTF8(value)
-					for _, b := range utf8Bytes {
-						result.WriteByte(b)
-					}
+					writeEscaped(&result, value, l.input[escStart:l.position+1])
 					continue
 				} else {
 					// Handle regular Unicode escape sequence \uHHHH
@@ -382,10 +380,7 @@ func (l *Lexer) readString(delimiter byte) string {
 									// Convert 4 hex digits to Unicode value
 									value := hexDigitValue(hex1)*4096 + hexDigitValue(hex2)*256 + hexDigitValue(hex3)*16 + hexDigitValue(hex4)
 									// Convert to UTF-8 and write the bytes
-									utf8Bytes := encodeUTF8(value)
-									for _, b := range utf8Bytes {
-										result.WriteByte(b)
-									}
+									writeEscaped(&result, value, l.input[escStart:l.position+1])
 									continue
 								}
 							}
@@ -416,6 +411,20 @@ func (l *Lexer) readString(delimiter byte) string {
 		result.WriteByte(l.CurrentChar)
 	}
 	return result.String()
+}
+
+// writeEscaped appends the character denoted by a \x, \u or \u{} escape sequence.
+// A character that cannot stand for itself inside the emitted string literal
+// (double quote, backslash, control characters and line terminators, surrogates)
+// is kept as the escape sequence written in the source.
+func writeEscaped(result *strings.Builder, value int, escape string) {
+	switch {
+	case value < 0x20, value == 0x7F, value == '"', value == '\\',
+		value == 0x2028, value == 0x2029, value >= 0xD800 && value <= 0xDFFF:
+		result.WriteString(escape)
+	default:
+		result.Write(encodeUTF8(value))
+	}
 }
 
 func (l *Lexer) readRawString() string {
